@@ -291,7 +291,7 @@ def run_property(prop, tier='quick', out=sys.stdout):
             else:
                 violations.append((k, m))
 
-    wdir = os.path.join(VERIF, 'out', 'witness')
+    wdir = os.path.join(VERIF, 'out', 'witness' + os.environ.get('VERIF_SLOT', ''))
     os.makedirs(wdir, exist_ok=True)
     for old in glob.glob(os.path.join(wdir, prop + '-*.json')):
         os.remove(old)
@@ -302,7 +302,7 @@ def run_property(prop, tier='quick', out=sys.stdout):
         print('KNOWN-FINDING: property=%s %s [%s]' % (prop, kf['what'], kf['key']), file=out)
     for i, (k, m) in enumerate(violations, 1):
         res = m['res']
-        wp = os.path.join('out', 'witness', '%s-%d.json' % (prop, i))
+        wp = os.path.join('out', 'witness' + os.environ.get('VERIF_SLOT', ''), '%s-%d.json' % (prop, i))
         with open(os.path.join(VERIF, wp), 'w') as fh:
             json.dump({'property': prop, 'rule': res.rule, 'key': k, 'where': res.where, 'detail': res.detail,
                        'witness': res.witness, 'configs': m['configs_bad'], 'tree': thash, 'src': src}, fh, indent=1)
@@ -359,8 +359,9 @@ def run_property(prop, tier='quick', out=sys.stdout):
         'violations': len(violations),
     }
     ev['coverage'].update(extra)
-    os.makedirs(os.path.join(VERIF, 'evidence'), exist_ok=True)
-    with open(os.path.join(VERIF, 'evidence', prop + '.json'), 'w') as fh:
+    evdir = os.environ.get('VERIF_EVIDENCE_DIR') or os.path.join(VERIF, 'evidence')
+    os.makedirs(evdir, exist_ok=True)
+    with open(os.path.join(evdir, prop + '.json'), 'w') as fh:
         json.dump(ev, fh, indent=1)
     print('%s %s: configs=%s bodies=%d calls=%d rules=%d obligations=%d discharged=%d known=%d violations=%d (%.1fs)' % (
         prop, tier, ','.join(configs), len(f0.fns), f0.stats['calls'], len(ctx0.rules), n_ob, n_ok, len(known_hits), len(violations), time.time() - t0), file=out)
